@@ -5,6 +5,14 @@
 From Msm Require Import Run Lemmas_C19 Lemmas_Rows Lemmas_Sim Spec.
 From Coq Require Import Lia.
 
+Arguments sp_exit_state : simpl never.
+Arguments sp_enter_state : simpl never.
+Arguments sp_take : simpl never.
+Arguments sp_exit : simpl never.
+Arguments sp_enter : simpl never.
+Arguments sp_level : simpl never.
+Arguments switch_id : simpl never.
+
 (* result code against outcome: handled bit iff a transition was taken; not handled: 2 iff a guard said no, else 0 *)
 Definition code_ok (code:nat) (h rj:bool) : Prop :=
   if h then code = 1 \/ code = 3 else code = (if rj then 2 else 0).
@@ -13,6 +21,21 @@ Lemma code_ok_or c1 c2 h1 r1 h2 r2 : code_ok c1 h1 r1 -> code_ok c2 h2 r2 -> cod
 Proof.
   unfold code_ok. destruct h1, h2, r1, r2; cbn; intros H1 H2; repeat (destruct H1 as [H1|H1]); repeat (destruct H2 as [H2|H2]);
     subst; cbn; auto.
+Qed.
+
+Lemma sp_exit_state_acc subs ev s items c :
+  sp_exit_state subs ev s (items, c) = let '(it, c') := sp_exit_state subs ev s ([], c) in (it ++ items, c').
+Proof.
+  unfold sp_exit_state. destruct (nth s subs None) as [f|]; [|cbn; reflexivity].
+  destruct (nth s (c_kids c) None) as [k|]; [|cbn; reflexivity].
+  destruct (f ev k) as [inner k1]. cbn. rewrite app_nil_r. reflexivity.
+Qed.
+Lemma sp_enter_state_acc subs ev s items c :
+  sp_enter_state subs ev s (items, c) = let '(it, c') := sp_enter_state subs ev s ([], c) in (it ++ items, c').
+Proof.
+  unfold sp_enter_state. destruct (nth s subs None) as [[m f]|]; [|cbn; reflexivity].
+  destruct (nth s (c_kids c) None) as [k|]; [|cbn; reflexivity].
+  destruct (f ev _) as [inner k1]. cbn. rewrite <- app_assoc. reflexivity.
 Qed.
 
 Section BackSpec.
@@ -116,45 +139,45 @@ Proof.
     cbn. intros u2 rn2 i2 (-> & ->).
     set (rn1 := set_kids rn (upd (kids rn) s (Some kn1))) in *.
     assert (Hk1 : nth s (kids rn1) None = Some kn1).
-    { unfold rn1. rewrite kids_set_kids. destruct rn as [a ks h q d cs p r]. cbn in *.
-      clear -Hk. revert s Hk. induction ks as [|x t IH]; intros [|s] H; cbn in *; try discriminate; auto. }
+    { unfold rn1. rewrite kids_set_kids. eapply nth_upd_some; eauto. }
     eapply sim_conseq.
     { eapply sim_in_child_x; [exact Hk1|]. apply (cs_exit_post c co Hsp ev kn1 Hkn1). }
     cbn. intros u3 rn3' i3' (kn2 & i3 & (Hkn2 & -> & E2) & -> & ->).
     destruct (sp_exit c ev (abs kn)) as [inner k1] eqn:Esp. inversion E1; subst i1 k1. clear E1.
-    unfold rn1. rewrite kids_set_kids.
-    assert (Hupd : forall (l:list (option rnode)) x y, upd (upd l s x) s y = upd l s y).
-    { intros l x y. revert s. clear. induction l as [|a l IH]; intros [|s]; cbn; auto. f_equal. apply IH. }
-    rewrite Hupd. repeat split.
-    + change (set_kids (set_kids rn (upd (kids rn) s (Some kn1))) (upd (kids rn) s (Some kn2)))
-        with (set_kids rn1 (upd (kids rn) s (Some kn2))).
-      replace (set_kids rn1 (upd (kids rn) s (Some kn2))) with (set_kids rn (upd (kids rn) s (Some kn2)))
-        by (unfold rn1; destruct rn; reflexivity).
-      eapply okL_set_kid; eauto.
-    + destruct rn; reflexivity.
-    + cbn [map app]. rewrite app_nil_r.
-      replace (act rn1) with (act rn) by (unfold rn1; destruct rn; reflexivity).
-      rewrite abs_act. f_equal.
-      replace (set_kids rn1 (upd (kids rn) s (Some kn2))) with (set_kids rn (upd (kids rn) s (Some kn2)))
-        by (unfold rn1; destruct rn; reflexivity).
-      rewrite abs_set_kid. rewrite E2. reflexivity.
+    unfold rn1. rewrite kids_set_kids, upd_upd, set_kids_set_kids.
+    split; [|split].
+    + eapply okL_set_kid; eauto.
+    + apply processing_set_kids.
+    + cbn [map app]. rewrite app_nil_r. rewrite act_set_kids, abs_act, abs_set_kid, E2. reflexivity.
   - rewrite (child_none s Es).
     eapply sim_conseq; [apply sim_cb|].
-    cbn. intros u rn' i (-> & ->). rewrite abs_act. repeat split; auto.
+    cbn. intros u rn' i (-> & ->). rewrite abs_act. split; [exact Hok|split; [reflexivity|]].
     destruct (option_map abs (nth s (kids rn) None)); reflexivity.
 Qed.
 
 (* ---- entering a state ---- *)
 Hypothesis Hcore : core mc.
 
-Lemma core_state_kind s : s_sub (get_state mc s) = None -> s_kind (get_state mc s) = KSimple.
+Lemma core_states_kind states : forall s,
+  (fix all (l:list state) : Prop :=
+     match l with
+     | [] => True
+     | State k sub sirows defers _ _ :: t =>
+         defers = [] /\ Forall core_irow sirows /\
+         match sub with Some m => k = KSub /\ core m | None => k = KSimple end /\ all t
+     end) states ->
+  s_sub (nth s states dummy_state) = None -> s_kind (nth s states dummy_state) = KSimple.
 Proof.
-  destruct mc as [states inits rows irows hist]. cbn in Hcore. destruct Hcore as (_ & _ & Hall).
-  unfold get_state. cbn [m_states]. clear Hcore. revert s. induction states as [|st t IH]; intros s Hs.
+  induction states as [|st t IH]; intros s Hall Hs.
   - destruct s; reflexivity.
   - destruct st as [k sub si df fl z]. destruct Hall as (_ & _ & Hk & Hrest). destruct s as [|s]; cbn in *.
     + subst sub. exact Hk.
     + apply IH; auto.
+Qed.
+Lemma core_state_kind s : s_sub (get_state mc s) = None -> s_kind (get_state mc s) = KSimple.
+Proof.
+  unfold get_state. destruct mc as [states inits rows irows hist]. cbn in Hcore. destruct Hcore as (_ & _ & Hall).
+  cbn [m_states]. apply core_states_kind. exact Hall.
 Qed.
 
 Lemma entry_throw_irrelevant {A} (m:M A) c rn (P:A -> rnode -> list titem -> Prop) (b:bool) :
@@ -179,30 +202,923 @@ Proof.
     cbn. intros u2 rn2 i2 (-> & ->).
     set (rn1 := set_kids rn (upd (kids rn) s (Some kn1))) in *.
     assert (Hk1 : nth s (kids rn1) None = Some kn1).
-    { unfold rn1. rewrite kids_set_kids. destruct rn as [a ks h q d cs p r]. cbn in *.
-      clear -Hk. revert s Hk. induction ks as [|x t IH]; intros [|s] H; cbn in *; try discriminate; auto. }
+    { unfold rn1. rewrite kids_set_kids. eapply nth_upd_some; eauto. }
     eapply sim_conseq.
     { eapply sim_in_child_x; [exact Hk1|]. apply (cs_entry_post c co Hsp fuel ev kn1 Hkn1 Hfuel). }
     cbn. intros u3 rn3' i3' (kn2 & i3 & (Hkn2 & E2) & -> & ->).
     rewrite E1 in E2.
     destruct (sp_enter c ev (c_set_act (abs kn) (sp_hist_entry c (abs kn) (e_ty ev)))) as [inner k1] eqn:Esp.
     inversion E2; subst i3 k1. clear E2.
-    unfold rn1. rewrite kids_set_kids.
-    assert (Hupd : forall (l:list (option rnode)) x y, upd (upd l s x) s y = upd l s y).
-    { intros l x y. revert s. clear. induction l as [|a l IH]; intros [|s]; cbn; auto. f_equal. apply IH. }
-    rewrite Hupd.
-    replace (set_kids (set_kids rn (upd (kids rn) s (Some kn1))) (upd (kids rn) s (Some kn2)))
-      with (set_kids rn (upd (kids rn) s (Some kn2))) by (destruct rn; reflexivity).
-    repeat split.
+    unfold rn1. rewrite kids_set_kids, upd_upd, set_kids_set_kids.
+    split; [|split].
     + eapply okL_set_kid; eauto.
-    + destruct rn; reflexivity.
-    + cbn [map app]. rewrite app_nil_r.
-      replace (act rn1) with (act rn) by (unfold rn1; destruct rn; reflexivity).
-      rewrite abs_act. rewrite abs_set_kid. reflexivity.
+    + apply processing_set_kids.
+    + cbn [map app]. rewrite app_nil_r. rewrite act_set_kids, abs_act, abs_set_kid. reflexivity.
   - rewrite (child_none s Es). rewrite (core_state_kind s Es).
     eapply sim_conseq; [apply sim_cb|].
-    cbn. intros u rn' i (-> & ->). rewrite abs_act. repeat split; auto.
+    cbn. intros u rn' i (-> & ->). rewrite abs_act. split; [exact Hok|split; [reflexivity|]].
     destruct (option_map abs (nth s (kids rn) None)); reflexivity.
 Qed.
 
+
+(* ---- one row ---- *)
+Lemma sim_set_act_at r s rn :
+  sim val (set_act_at r s) rn (fun _ rn' items => rn' = set_act rn (upd (act rn) r s) /\ items = []).
+Proof. unfold set_act_at. apply sim_modify. auto. Qed.
+
+Lemma sim_run_guard x ev rn :
+  sim val (run_guard mc x ev) rn
+      (fun b rn' items => rn' = rn /\
+         if r_guard x then b = memb (r_id x) val /\ items = [Cb (KGuard b) [] (r_id x) ev false (act rn)]
+         else b = true /\ items = []).
+Proof.
+  unfold run_guard. destruct (r_guard x).
+  - eapply sim_bind; [apply (sim_guard_value val (r_id x) rn (fun b rn1 i1 => b = memb (r_id x) val /\ rn1 = rn /\ i1 = [])); auto|].
+    cbn. intros b rn1 i1 (-> & -> & ->).
+    eapply sim_bind; [apply sim_cb|]. cbn. intros u rn2 i2 (-> & ->). apply sim_ret. cbn. auto.
+  - apply sim_ret. auto.
+Qed.
+
+Lemma sim_run_action x ev rn : r_act x <> ActDefer ->
+  sim val (run_action mc x ev) rn
+      (fun code rn' items => rn' = rn /\ code = HANDLED_TRUE /\
+         items = match r_act x with ActCall => [Cb KAction [] (r_id x) ev false (act rn)] | _ => [] end).
+Proof.
+  intros Hd. unfold run_action. destruct (r_act x); try congruence.
+  - apply sim_ret. auto.
+  - eapply sim_bind; [apply sim_cb|]. cbn. intros u rn2 i2 (-> & ->). apply sim_ret. cbn. auto.
+Qed.
+
+Definition core_row' (x:row) : Prop :=
+  r_act x <> ActDefer /\ r_exitpt x = None /\ (r_tgt x = TgNone \/ exists t, r_tgt x = TgState t).
+
+Lemma L_take fuel r x ev rn : okL mc rn -> 1 <= fuel -> core_row' x ->
+  sim val (match tgt_state (r_tgt x) with
+           | None => run_action mc x ev
+           | Some nxt =>
+               set_act_at r (switch_id pol 0 (r_src x) nxt) ;;
+               exec_exit contained mc children fuel (r_src x) ev ;;
+               set_act_at r (switch_id pol 1 (r_src x) nxt) ;;
+               res <- run_action mc x ev ;;
+               set_act_at r (switch_id pol 2 (r_src x) nxt) ;;
+               exec_entry cf contained mc children fuel nxt ev (tgt_ekind (r_tgt x)) ;;
+               set_act_at r (switch_id pol 3 (r_src x) nxt) ;;
+               ret res
+           end) rn
+      (fun code rn' items => okL mc rn' /\ processing rn' = processing rn /\ code = HANDLED_TRUE /\
+                             (items, abs rn') = sp_take pol mc r x ev (abs rn)).
+Proof.
+  intros Hok Hfuel (Hd & _ & Htgt). unfold sp_take.
+  destruct Htgt as [Ht | (t & Ht)]; rewrite Ht; cbn [tgt_state tgt_ekind].
+  - eapply sim_conseq; [apply sim_run_action; exact Hd|].
+    cbn. intros code rn' items (-> & -> & ->). rewrite abs_act. auto.
+  - set (cur := r_src x).
+    eapply sim_bind; [apply sim_set_act_at|]. cbn. intros u0 rn0 i0 (-> & ->).
+    eapply sim_bind; [apply L_exit; apply okL_set_act; exact Hok|]. cbn. intros u1 rn1 i1 (Hok1 & Hp1 & E1).
+    eapply sim_bind; [apply sim_set_act_at|]. cbn. intros u2 rn2 i2 (-> & ->).
+    eapply sim_bind; [apply sim_run_action; exact Hd|]. cbn. intros res rn3 i3 (-> & -> & ->).
+    eapply sim_bind; [apply sim_set_act_at|]. cbn. intros u4 rn4 i4 (-> & ->).
+    eapply sim_bind; [apply L_entry; [repeat apply okL_set_act; exact Hok1 | exact Hfuel]|].
+    cbn. intros u5 rn5 i5 (Hok5 & Hp5 & E5).
+    eapply sim_bind; [apply sim_set_act_at|]. cbn. intros u6 rn6 i6 (-> & ->).
+    apply sim_ret. cbn.
+    rewrite abs_set_act_at in E1.
+    destruct (sp_exit_state (sp_exit_subs mc) ev cur ([], c_set_slot (abs rn) r (switch_id pol 0 cur t))) as [j1 c1] eqn:X1.
+    injection E1 as <- <-.
+    rewrite !abs_set_act_at in E5.
+    assert (Ea : act (set_act rn1 (upd (act rn1) r (switch_id pol 1 cur t))) = c_act (c_set_slot (abs rn1) r (switch_id pol 1 cur t))).
+    { rewrite c_act_set_slot, abs_act. destruct rn1; reflexivity. }
+    rewrite Ea.
+    destruct (sp_enter_state (sp_enter_subs mc) ev t
+                ([], c_set_slot (c_set_slot (abs rn1) r (switch_id pol 1 cur t)) r (switch_id pol 2 cur t))) as [j5 c5] eqn:X5.
+    injection E5 as <- <-.
+    split; [apply okL_set_act; exact Hok5|]. split.
+    { destruct rn5, rn1, rn; cbn in *. congruence. }
+    split; [reflexivity|].
+    rewrite abs_set_act_at. rewrite !app_nil_r. rewrite app_assoc. reflexivity.
+Qed.
+
+Lemma L_row fuel r x ev rn : okL mc rn -> 1 <= fuel -> core_row' x ->
+  sim val (exec_row cf contained mc children fuel r x ev) rn
+      (fun code rn' items => okL mc rn' /\ processing rn' = processing rn /\
+         items = o_items (sp_rows pol mc r ev val [x] (abs rn)) /\ abs rn' = o_conf (sp_rows pol mc r ev val [x] (abs rn)) /\
+         code = (if o_taken (sp_rows pol mc r ev val [x] (abs rn)) then 1 else 2) /\
+         o_rejected (sp_rows pol mc r ev val [x] (abs rn)) = negb (o_taken (sp_rows pol mc r ev val [x] (abs rn)))).
+Proof.
+  intros Hok Hfuel Hc. pose proof Hc as (Hd & Hx & Htgt). unfold exec_row. cbn [sp_rows].
+  assert (Hcommon : forall b gi, (if r_guard x then b = memb (r_id x) val /\ gi = [Cb (KGuard b) [] (r_id x) ev false (act rn)] else b = true /\ gi = []) ->
+            sim val (if b then
+                       match tgt_state (r_tgt x) with
+                       | None => run_action mc x ev
+                       | Some nxt =>
+                           set_act_at r (switch_id pol 0 (r_src x) nxt) ;;
+                           exec_exit contained mc children fuel (r_src x) ev ;;
+                           set_act_at r (switch_id pol 1 (r_src x) nxt) ;;
+                           res <- run_action mc x ev ;;
+                           set_act_at r (switch_id pol 2 (r_src x) nxt) ;;
+                           exec_entry cf contained mc children fuel nxt ev (tgt_ekind (r_tgt x)) ;;
+                           set_act_at r (switch_id pol 3 (r_src x) nxt) ;;
+                           ret res
+                       end
+                     else ret HANDLED_GUARD_REJECT) rn
+              (fun code rn' items => okL mc rn' /\ processing rn' = processing rn /\
+                 let o := (if r_guard x
+                           then if memb (r_id x) val
+                                then (let '(i, c') := sp_take pol mc r x ev (abs rn) in Out true false (i ++ [Cb (KGuard true) [] (r_id x) ev false (c_act (abs rn))]) c')
+                                else Out false true ([] ++ [Cb (KGuard false) [] (r_id x) ev false (c_act (abs rn))]) (abs rn)
+                           else (let '(i, c') := sp_take pol mc r x ev (abs rn) in Out true false i c')) in
+                 items ++ gi = o_items o /\ abs rn' = o_conf o /\ code = (if o_taken o then 1 else 2) /\ o_rejected o = negb (o_taken o))).
+  { intros b gi Hb. destruct b.
+    - eapply sim_conseq; [apply L_take; auto|]. cbn. intros code rn' items (H1 & H2 & -> & E).
+      split; [exact H1|]. split; [exact H2|].
+      destruct (sp_take pol mc r x ev (abs rn)) as [i c'] eqn:T. inversion E; subst i c'.
+      destruct (r_guard x).
+      + destruct Hb as (Hb & ->). rewrite <- Hb. cbn. rewrite abs_act. auto.
+      + destruct Hb as (_ & ->). cbn. rewrite app_nil_r. auto.
+    - apply sim_ret. split; [exact Hok|]. split; [reflexivity|].
+      destruct (r_guard x); [|destruct Hb; discriminate].
+      destruct Hb as (Hb & ->). rewrite <- Hb. cbn. rewrite abs_act. auto. }
+  destruct (tgt_state (r_tgt x)) as [nxt|] eqn:Et.
+  - rewrite Hx. eapply sim_bind; [apply (sim_get val rn (fun a rn1 i1 => a = rn /\ rn1 = rn /\ i1 = [])); auto|].
+    cbn. intros a rn1 i1 (-> & -> & ->).
+    eapply sim_bind; [apply sim_run_guard|]. cbn. intros b rn2 gi (-> & Hb).
+    specialize (Hcommon b gi Hb).
+    destruct b; cbn [negb]; (eapply sim_conseq; [exact Hcommon|]); cbn; intros code rn' items H; rewrite app_nil_r;
+      (destruct (r_guard x); [destruct (memb (r_id x) val)|]); exact H.
+  - eapply sim_bind; [apply sim_run_guard|]. cbn. intros b rn2 gi (-> & Hb).
+    specialize (Hcommon b gi Hb).
+    eapply sim_conseq; [exact Hcommon|]. cbn. intros code rn' items H.
+    destruct (r_guard x); [destruct (memb (r_id x) val)|]; exact H.
+Qed.
+
+
+(* ---- the candidates of a state, one after the other ---- *)
+Hypothesis Hnofct : c_fct cf = false.
+
+Lemma is11_false : is11 cf = false. Proof. unfold is11. rewrite Hbe. reflexivity. Qed.
+Lemma cc_vals : chain_continue cf 0 = true /\ chain_continue cf 1 = false /\ chain_continue cf 2 = true /\ chain_continue cf 3 = false.
+Proof. unfold chain_continue. rewrite is11_false. repeat split; reflexivity. Qed.
+Lemma merge2 sub h rj : code_ok sub h rj -> code_ok (chain_merge cf 2 sub) h true.
+Proof.
+  unfold chain_merge. rewrite is11_false. unfold code_ok. destruct h.
+  - intros [->| ->]; cbn; auto.
+  - destruct rj; intros ->; reflexivity.
+Qed.
+Lemma merge0 sub : sub < 4 -> chain_merge cf 0 sub = sub.
+Proof. unfold chain_merge. rewrite is11_false. intros H. do 4 (destruct sub as [|sub]; [reflexivity|]). lia. Qed.
+Lemma code_ok_lt4 c h rj : code_ok c h rj -> c < 4.
+Proof. unfold code_ok. destruct h; [intros [->| ->]; lia | destruct rj; intros ->; lia]. Qed.
+
+Lemma sp_rows_cons x t r ev c :
+  sp_rows pol mc r ev val (x :: t) c =
+  let o1 := sp_rows pol mc r ev val [x] c in
+  if o_taken o1 then o1
+  else (let o2 := sp_rows pol mc r ev val t (o_conf o1) in
+        Out (o_taken o2) true (o_items o2 ++ o_items o1) (o_conf o2)).
+Proof.
+  cbn [sp_rows]. destruct (r_guard x).
+  - destruct (memb (r_id x) val).
+    + destruct (sp_take pol mc r x ev c) as [i c']. reflexivity.
+    + cbn. reflexivity.
+  - destruct (sp_take pol mc r x ev c) as [i c']. reflexivity.
+Qed.
+
+Lemma L_rows fuel r s ev : forall rows rn, okL mc rn -> 1 <= fuel -> Forall core_row' rows ->
+  sim val (chain_gen (exec_item cf contained mc children fuel r s ev) (chain_continue cf) (chain_merge cf) (map CRow rows)) rn
+      (fun code rn' items => okL mc rn' /\ processing rn' = processing rn /\
+         items = o_items (sp_rows pol mc r ev val rows (abs rn)) /\ abs rn' = o_conf (sp_rows pol mc r ev val rows (abs rn)) /\
+         code_ok code (o_taken (sp_rows pol mc r ev val rows (abs rn))) (o_rejected (sp_rows pol mc r ev val rows (abs rn)))).
+Proof.
+  induction rows as [|x t IH]; intros rn Hok Hfuel Hall; cbn [map chain_gen].
+  - apply sim_ret. cbn. split; [exact Hok|]. repeat (split; [reflexivity|]). reflexivity.
+  - inversion Hall as [|? ? Hx Ht]; subst. rewrite sp_rows_cons.
+    eapply sim_bind; [apply (L_row fuel r x ev rn Hok Hfuel Hx)|].
+    cbn beta. intros res rn1 i1 (Hok1 & Hp1 & Ei & Ec & Eres & Erj).
+    destruct (o_taken (sp_rows pol mc r ev val [x] (abs rn))) eqn:Tk.
+    + subst res. destruct cc_vals as (_ & C1 & _). rewrite C1. apply sim_ret. cbn zeta. rewrite Tk.
+      rewrite app_nil_l. split; [exact Hok1|]. split; [exact Hp1|]. split; [exact Ei|]. split; [exact Ec|].
+      rewrite Erj, Tk. unfold code_ok. auto.
+    + subst res. destruct cc_vals as (_ & _ & C2 & _). rewrite C2.
+      eapply sim_bind; [apply (IH rn1 Hok1 Hfuel Ht)|].
+      cbn beta. intros sub rn2 i2 (Hok2 & Hp2 & Ei2 & Ec2 & Hc2). apply sim_ret. cbn zeta. rewrite Tk. cbn [o_taken o_rejected o_items o_conf].
+      rewrite app_nil_l. rewrite <- Ec. split; [exact Hok2|]. split; [congruence|]. split; [congruence|]. split; [exact Ec2|].
+      apply merge2 with (rj := o_rejected (sp_rows pol mc r ev val t (abs rn1))). exact Hc2.
+Qed.
+
+(* the rows of a state in the engine's table are the specification's candidates *)
+Lemma flat_base t e : is_base_of parents t e = Nat.eqb t e.
+Proof.
+  unfold is_base_of. destruct (length parents) as [|n]; cbn; [rewrite orb_false_r; reflexivity|].
+  rewrite Hflat. rewrite orb_false_r. reflexivity.
+Qed.
+Definition trig_core (x:row) : Prop := exists e, r_trig x = TrEv e /\ e <> EV_NONE.
+Lemma row_matches_core ety x : ety <> EV_NONE -> trig_core x -> row_matches cf parents ety x = sp_matches ety x.
+Proof.
+  intros Hn (e & He & _). unfold row_matches, sp_matches, trig_matches. rewrite He. rewrite flat_base.
+  destruct (Nat.eqb ety EV_NONE) eqn:E; [apply Nat.eqb_eq in E; contradiction|]. reflexivity.
+Qed.
+Lemma filter_ext_Forall {A} (f g:A -> bool) (P:A -> Prop) l :
+  Forall P l -> (forall x, P x -> f x = g x) -> filter f l = filter g l.
+Proof. intros H Hfg. induction H as [|x l Hx Hl IH]; cbn; [reflexivity|]. rewrite (Hfg x Hx), IH. reflexivity. Qed.
+
+
+(* ---- facts about core definitions ---- *)
+Lemma core_row_parts n x : core_row n x -> core_row' x /\ trig_core x.
+Proof. intros (Ht & Ha & Hx & Hg). split; [split; [exact Ha | split; [exact Hx | exact Hg]] | exact Ht]. Qed.
+Lemma core_irow_parts x : core_irow x -> core_row' x /\ trig_core x.
+Proof. intros (Ht & Ha & Hx & Hg). split; [split; [exact Ha | split; [exact Hx | left; exact Hg]] | exact Ht]. Qed.
+
+Definition good (x:row) : Prop := core_row' x /\ trig_core x.
+Lemma core_rows_good : Forall good (m_rows mc).
+Proof.
+  destruct mc as [states inits rows irows hist]. cbn in Hcore. destruct Hcore as (Hr & _ & _). cbn [m_rows].
+  eapply Forall_impl; [|exact Hr]. intros x Hx. eapply core_row_parts; eauto.
+Qed.
+Lemma core_irows_good : Forall good (m_irows mc).
+Proof.
+  destruct mc as [states inits rows irows hist]. cbn in Hcore. destruct Hcore as (_ & Hi & _). cbn [m_irows].
+  eapply Forall_impl; [|exact Hi]. intros x Hx. apply core_irow_parts; auto.
+Qed.
+Lemma core_states_facts states : forall s,
+  (fix all (l:list state) : Prop :=
+     match l with
+     | [] => True
+     | State k sub sirows defers _ _ :: t =>
+         defers = [] /\ Forall core_irow sirows /\
+         match sub with Some m => k = KSub /\ core m | None => k = KSimple end /\ all t
+     end) states ->
+  s_defers (nth s states dummy_state) = [] /\ Forall good (s_irows (nth s states dummy_state)) /\
+  is_blocking_state (nth s states dummy_state) = false /\
+  match s_sub (nth s states dummy_state) with Some m => core m | None => True end.
+Proof.
+  induction states as [|st t IH]; intros s Hall.
+  - destruct s; cbn; auto.
+  - destruct st as [k sub si df fl z]. destruct Hall as (Hd & Hsi & Hk & Hrest). destruct s as [|s]; cbn [nth].
+    + cbn. split; [exact Hd|]. split.
+      * eapply Forall_impl; [|exact Hsi]. intros x Hx. apply core_irow_parts; auto.
+      * destruct sub as [m|]; [destruct Hk as (-> & Hm) | subst k]; cbn; auto.
+    + apply IH; auto.
+Qed.
+Lemma core_state s :
+  s_defers (get_state mc s) = [] /\ Forall good (s_irows (get_state mc s)) /\ is_blocking_state (get_state mc s) = false /\
+  match s_sub (get_state mc s) with Some m => core m | None => True end.
+Proof.
+  unfold get_state. destruct mc as [states inits rows irows hist]. cbn in Hcore. destruct Hcore as (_ & _ & Hall).
+  cbn [m_states]. apply core_states_facts. exact Hall.
+Qed.
+
+Lemma Forall_filter {A} (P:A -> Prop) f l : Forall P l -> Forall P (filter f l).
+Proof. intros H. induction H as [|x l Hx Hl IH]; cbn; [constructor|]. destruct (f x); [constructor; auto | auto]. Qed.
+Lemma Forall_rev' {A} (P:A -> Prop) l : Forall P l -> Forall P (rev l).
+Proof. intros H. apply Forall_forall. intros x Hx. apply in_rev in Hx. eapply Forall_forall in H; eauto. Qed.
+
+Lemma table_rows_spec s ety : ety <> EV_NONE ->
+  table_rows cf parents mc s ety = sp_candidates mc s ety /\ Forall core_row' (sp_candidates mc s ety).
+Proof.
+  intros Hn. unfold table_rows, sp_candidates. destruct (core_state s) as (_ & Hsi & _ & _). pose proof core_rows_good as Hr.
+  split.
+  - f_equal.
+    + destruct (is_sub mc s); [reflexivity|]. f_equal.
+      eapply filter_ext_Forall; [exact Hsi|]. intros x (_ & Hx). apply row_matches_core; auto.
+    + f_equal. eapply filter_ext_Forall; [exact Hr|]. intros x (_ & Hx). rewrite row_matches_core by auto. reflexivity.
+  - apply Forall_app. split.
+    + destruct (is_sub mc s); [constructor|]. apply Forall_rev'. apply Forall_filter.
+      eapply Forall_impl; [|exact Hsi]. intros x (H & _). exact H.
+    + apply Forall_rev'. apply Forall_filter. eapply Forall_impl; [|exact Hr]. intros x (H & _). exact H.
+Qed.
+
+Lemma level_subs_nth s : nth s (sp_level_subs pol mc) None =
+  match s_sub (get_state mc s) with Some m => Some (sp_level pol m) | None => None end.
+Proof. unfold sp_level_subs. apply nth_map_sub. Qed.
+
+Lemma c_set_kid_same c s k : nth s (c_kids c) None = Some k -> c_set_kid c s k = c.
+Proof.
+  destruct c as [a ks h]. cbn. intros H. f_equal. revert s H. induction ks as [|x t IH]; intros [|s] H; cbn in *; try discriminate.
+  - subst x. reflexivity.
+  - f_equal. apply IH. exact H.
+Qed.
+
+Lemma match_id {A} (l:list A) : match l with [] => [] | _ :: _ => l end = l.
+Proof. destruct l; reflexivity. Qed.
+
+(* ---- one region ---- *)
+Lemma L_cell fuel r ev rn : okL mc rn -> depth mc + 1 <= fuel -> e_ty ev <> EV_NONE ->
+  sim val (run_cell cf contained mc children fuel r (nth r (act rn) 0) ev
+             (cell_items cf parents mc children (nth r (act rn) 0) (e_ty ev))) rn
+      (fun code rn' items => okL mc rn' /\ processing rn' = processing rn /\
+         items = o_items (sp_region pol mc (sp_level_subs pol mc) ev val r (abs rn)) /\
+         abs rn' = o_conf (sp_region pol mc (sp_level_subs pol mc) ev val r (abs rn)) /\
+         code_ok code (o_taken (sp_region pol mc (sp_level_subs pol mc) ev val r (abs rn)))
+                      (o_rejected (sp_region pol mc (sp_level_subs pol mc) ev val r (abs rn)))).
+Proof.
+  intros Hok Hfuel Hev. set (s := nth r (act rn) 0).
+  assert (Hf1 : 1 <= fuel) by lia.
+  destruct (table_rows_spec s (e_ty ev) Hev) as (Etab & Hrows).
+  destruct (core_state s) as (Hdef & _ & _ & Hsubcore).
+  unfold run_cell, cell_items. rewrite Hnofct. unfold state_defers. rewrite Hdef. cbn [memb existsb]. rewrite Etab.
+  unfold sp_region. rewrite abs_act. fold s. rewrite level_subs_nth, abs_kid.
+  (* the rows alone, as run_cell executes them *)
+  assert (Rows : forall rn0, okL mc rn0 ->
+            sim val (match map CRow (sp_candidates mc s (e_ty ev)) with
+                     | [] => ret HANDLED_FALSE
+                     | [x] => exec_item cf contained mc children fuel r s ev x
+                     | _ => chain_row cf contained mc children fuel r s ev (map CRow (sp_candidates mc s (e_ty ev)))
+                     end) rn0
+              (fun code rn' items => okL mc rn' /\ processing rn' = processing rn0 /\
+                 items = o_items (sp_rows pol mc r ev val (sp_candidates mc s (e_ty ev)) (abs rn0)) /\
+                 abs rn' = o_conf (sp_rows pol mc r ev val (sp_candidates mc s (e_ty ev)) (abs rn0)) /\
+                 code_ok code (o_taken (sp_rows pol mc r ev val (sp_candidates mc s (e_ty ev)) (abs rn0)))
+                              (o_rejected (sp_rows pol mc r ev val (sp_candidates mc s (e_ty ev)) (abs rn0))))).
+  { intros rn0 Hok0. pose proof (L_rows fuel r s ev (sp_candidates mc s (e_ty ev)) rn0 Hok0 Hf1 Hrows) as HL.
+    destruct (sp_candidates mc s (e_ty ev)) as [|x [|y t]] eqn:Ec; cbn [map].
+    - apply sim_ret. cbn. split; [exact Hok0|]. repeat (split; [reflexivity|]). reflexivity.
+    - inversion Hrows as [|? ? Hx _]; subst. cbn [exec_item].
+      eapply sim_conseq; [apply (L_row fuel r x ev rn0 Hok0 Hf1 Hx)|].
+      cbn beta. intros code rn' items (H1 & H2 & H3 & H4 & H5 & H6).
+      split; [exact H1|]. split; [exact H2|]. split; [exact H3|]. split; [exact H4|].
+      rewrite H6. subst code. unfold code_ok. destruct (o_taken _); cbn; auto.
+    - exact HL. }
+  destruct (s_sub (get_state mc s)) as [c|] eqn:Es.
+  - (* an active submachine *)
+    destruct (child_some s c Es) as (co & Hco & Hsp).
+    destruct (okL_kid mc rn s c Hok Es) as (kn & Hk & Hkn). rewrite Hk. cbn [option_map].
+    pose proof (sub_in_range mc s c Es) as Hlt. pose proof (depth_sub mc s c Es) as Hdep.
+    unfold forwards. rewrite Hco, Hnofct.
+    destruct (existsb (fun t => trig_matches parents true t (e_ty ev)) (co_trigs co)) eqn:Fw.
+    + (* forwarded first *)
+      assert (Fr : sim val (exec_item cf contained mc children fuel r s ev CFrow) rn
+                (fun code rn' items => okL mc rn' /\ processing rn' = processing rn /\ act rn' = act rn /\
+                   items = map (push_path s) (o_items (sp_level pol c ev val (abs kn))) /\
+                   abs rn' = c_set_kid (abs rn) s (o_conf (sp_level pol c ev val (abs kn))) /\
+                   code_ok code (o_taken (sp_level pol c ev val (abs kn))) (o_rejected (sp_level pol c ev val (abs kn))))).
+      { cbn [exec_item]. rewrite Hco, Hnofct.
+        eapply sim_bind.
+        { eapply sim_in_child_x; [exact Hk|]. apply (cs_pei c co Hsp fuel ev kn Hkn); [lia | exact Hev]. }
+        cbn beta. intros res rn1' i1' (kn1 & i1 & (Hkn1 & Ei & Ec & Hcode) & -> & ->).
+        eapply sim_bind; [apply sim_set_act_at|]. cbn beta. intros u rn2 i2 (-> & ->).
+        apply sim_ret. rewrite act_set_kids. unfold s. rewrite upd_same_or_out.
+        replace (set_act (set_kids rn (upd (kids rn) (nth r (act rn) 0) (Some kn1))) (act rn))
+          with (set_kids rn (upd (kids rn) (nth r (act rn) 0) (Some kn1))) by (destruct rn; reflexivity).
+        fold s. split; [eapply okL_set_kid; eauto|]. split; [apply processing_set_kids|]. split; [apply act_set_kids|].
+        rewrite !app_nil_l. split; [rewrite Ei; reflexivity|]. split; [rewrite abs_set_kid, Ec; reflexivity | exact Hcode]. }
+      cbn [app].
+      destruct (map CRow (sp_candidates mc s (e_ty ev))) as [|y t] eqn:Em.
+      * (* no row of the enclosing machine: the forwarding entry alone *)
+        assert (En : sp_candidates mc s (e_ty ev) = []) by (destruct (sp_candidates mc s (e_ty ev)); [reflexivity | discriminate]).
+        eapply sim_conseq; [exact Fr|]. cbn beta. intros code rn' items (H1 & H2 & _ & H3 & H4 & H5).
+        rewrite En in *. cbn [sp_rows o_taken o_rejected o_items o_conf].
+        split; [exact H1|]. split; [exact H2|].
+        destruct (o_taken (sp_level pol c ev val (abs kn))); cbn [o_taken o_rejected o_items o_conf];
+          rewrite ?orb_false_r, ?app_nil_l; auto.
+      * rewrite <- Em. unfold chain_row. cbn [chain_gen].
+        eapply sim_bind; [exact Fr|]. cbn beta. intros res rn1 i1 (Hok1 & Hp1 & Ha1 & Ei1 & Ec1 & Hc1).
+        destruct (o_taken (sp_level pol c ev val (abs kn))) eqn:Tk.
+        -- (* the submachine took a transition: nothing else is tried *)
+           assert (Cf : chain_continue cf res = false).
+           { destruct cc_vals as (_ & C1 & _ & C3). unfold code_ok in Hc1. destruct Hc1 as [->| ->]; auto. }
+           rewrite Cf. apply sim_ret. rewrite app_nil_l. cbn [o_taken o_rejected o_items o_conf]. auto.
+        -- assert (Cf : chain_continue cf res = true).
+           { destruct cc_vals as (C0 & _ & C2 & _). unfold code_ok in Hc1. destruct (o_rejected _); subst res; auto. }
+           rewrite Cf.
+           eapply sim_bind; [apply (L_rows fuel r s ev _ rn1 Hok1 Hf1 Hrows)|].
+           cbn beta. intros sub rn2 i2 (Hok2 & Hp2 & Ei2 & Ec2 & Hc2). apply sim_ret. rewrite app_nil_l.
+           rewrite Ec1 in *. cbn [o_taken o_rejected o_items o_conf].
+           split; [exact Hok2|]. split; [congruence|]. split; [rewrite Ei2, Ei1; reflexivity|]. split; [exact Ec2|].
+           unfold code_ok in Hc1. destruct (o_rejected (sp_level pol c ev val (abs kn))); subst res; cbn [orb].
+           ++ eapply merge2; eauto.
+           ++ rewrite merge0 by (eapply code_ok_lt4; eauto). exact Hc2.
+    + (* the submachine has no transition for this event type anywhere: it is not consulted, and the specification
+         says it would have done nothing *)
+      rewrite (cs_silent c co Hsp ev (abs kn) Fw). cbn [o_taken o_rejected o_items o_conf map app orb].
+      assert (Eid : c_set_kid (abs rn) s (abs kn) = abs rn) by (apply c_set_kid_same; rewrite abs_kid, Hk; reflexivity).
+      rewrite Eid. cbn [app]. rewrite match_id.
+      eapply sim_conseq; [apply (Rows rn Hok)|]. cbn beta. intros code rn' items (H1 & H2 & H3 & H4 & H5).
+      rewrite app_nil_r. auto.
+  - (* a simple state *)
+    unfold forwards. rewrite (child_none s Es). cbn [app]. rewrite match_id.
+    eapply sim_conseq; [apply (Rows rn Hok)|]. cbn beta. intros code rn' items H. exact H.
+Qed.
+
+
+(* ---- every region once, in order ---- *)
+Definition reg_step (ev:evt) (o:outcome) (r:nat) : outcome :=
+  let o' := sp_region pol mc (sp_level_subs pol mc) ev val r (o_conf o) in
+  Out (o_taken o || o_taken o') (o_rejected o || o_rejected o') (o_items o' ++ o_items o) (o_conf o').
+
+Lemma L_regions fuel ev : depth mc + 1 <= fuel -> e_ty ev <> EV_NONE ->
+  forall n r acc oacc rn, okL mc rn -> abs rn = o_conf oacc -> code_ok acc (o_taken oacc) (o_rejected oacc) ->
+  sim val (regions_loop cf parents contained mc children fuel ev n r acc) rn
+      (fun code rn' items => okL mc rn' /\ processing rn' = processing rn /\
+         items ++ o_items oacc = o_items (fold_left (reg_step ev) (seqn r n) oacc) /\
+         abs rn' = o_conf (fold_left (reg_step ev) (seqn r n) oacc) /\
+         code_ok code (o_taken (fold_left (reg_step ev) (seqn r n) oacc)) (o_rejected (fold_left (reg_step ev) (seqn r n) oacc))).
+Proof.
+  intros Hfuel Hev. induction n as [|n IH]; intros r acc oacc rn Hok Ea Hc; cbn [regions_loop seqn fold_left].
+  - apply sim_ret. rewrite app_nil_l. auto.
+  - eapply sim_bind; [apply (sim_get val rn (fun a rn1 i1 => a = rn /\ rn1 = rn /\ i1 = [])); auto|].
+    cbn beta. intros a rn0 i0 (-> & -> & ->).
+    eapply sim_bind; [apply (L_cell fuel r ev rn Hok Hfuel Hev)|].
+    cbn beta. intros res rn1 i1 (Hok1 & Hp1 & Ei1 & Ec1 & Hc1).
+    eapply sim_conseq.
+    { apply (IH (S r) (bit_or acc res) (reg_step ev oacc r) rn1 Hok1).
+      - unfold reg_step. cbn [o_conf]. rewrite <- Ea. exact Ec1.
+      - unfold reg_step. cbn [o_taken o_rejected]. rewrite <- Ea. apply code_ok_or; assumption. }
+    cbn beta. intros code rn2 i2 (Hok2 & Hp2 & Ei2 & Ec2 & Hc2).
+    split; [exact Hok2|]. split; [congruence|]. split; [|split; [exact Ec2 | exact Hc2]].
+    rewrite <- Ei2. unfold reg_step. cbn [o_items]. rewrite <- Ea, <- Ei1. rewrite app_nil_r, app_assoc. reflexivity.
+Qed.
+
+Lemma sp_regions_fold ev c :
+  sp_regions pol mc (sp_level_subs pol mc) ev val c = fold_left (reg_step ev) (seqn 0 (m_nreg mc)) (Out false false [] c).
+Proof. reflexivity. Qed.
+
+Lemma sp_level_unfold ev c :
+  sp_level pol mc ev val c =
+  let o := sp_regions pol mc (sp_level_subs pol mc) ev val c in
+  if o_taken o then o
+  else (let o2 := sp_rows pol mc 0 ev val (rev (filter (sp_matches (e_ty ev)) (m_irows mc))) (o_conf o) in
+        Out (o_taken o2) (o_rejected o || o_rejected o2) (o_items o2 ++ o_items o) (o_conf o2)).
+Proof. destruct mc; reflexivity. Qed.
+
+Lemma sim_iter_nt ev : forall l rn,
+  sim val (iterM (fun s => cb mc KNoTrans s ev false) l) rn
+      (fun _ rn' items => rn' = rn /\ items = rev (map (fun s => Cb KNoTrans [] s ev false (act rn)) l)).
+Proof.
+  induction l as [|x t IH]; intros rn; cbn [iterM].
+  - apply sim_ret. auto.
+  - eapply sim_bind; [apply sim_cb|]. cbn beta. intros u rn1 i1 (-> & ->).
+    eapply sim_conseq; [apply IH|]. cbn beta. intros u2 rn2 i2 (-> & ->). split; [reflexivity|].
+    cbn [map rev]. reflexivity.
+Qed.
+
+(* ---- a whole level ---- *)
+Lemma internal_tried_vals : internal_tried cf 0 = true /\ internal_tried cf 1 = false /\ internal_tried cf 2 = true /\ internal_tried cf 3 = false.
+Proof. unfold internal_tried. rewrite is11_false. repeat split; reflexivity. Qed.
+
+Lemma internal_processable_false ety : ety <> EV_NONE -> internal_processable mc ety = false ->
+  filter (sp_matches ety) (m_irows mc) = [].
+Proof.
+  intros Hn. unfold internal_processable. pose proof core_irows_good as Hg.
+  induction Hg as [|x l (_ & (e & He & _)) Hl IH]; cbn; [reflexivity|].
+  rewrite He. unfold sp_matches at 1. rewrite He.
+  destruct (Nat.eqb e ety) eqn:E; cbn.
+  - destruct (Nat.eqb ety EV_NONE) eqn:E2; [apply Nat.eqb_eq in E2; contradiction|]. cbn. discriminate.
+  - exact IH.
+Qed.
+
+Lemma L_level fuel ev direct rn : okL mc rn -> depth mc + 1 <= fuel -> e_ty ev <> EV_NONE ->
+  sim val (do_process_event cf parents contained mc children fuel ev direct) rn
+      (fun code rn' items => okL mc rn' /\ processing rn' = processing rn /\
+         (let o := sp_level pol mc ev val (abs rn) in
+          let nt := (negb contained || direct) && negb (o_taken o || o_rejected o) in
+          items = (if nt then rev (map (fun s => Cb KNoTrans [] s ev false (c_act (o_conf o))) (c_act (o_conf o))) else []) ++ o_items o /\
+          abs rn' = o_conf o /\ code_ok code (o_taken o) (o_rejected o))).
+Proof.
+  intros Hok Hfuel Hev. assert (Hf1 : 1 <= fuel) by lia. unfold do_process_event. rewrite sp_level_unfold, sp_regions_fold.
+  eapply sim_bind.
+  { apply (L_regions fuel ev Hfuel Hev (m_nreg mc) 0 HANDLED_FALSE (Out false false [] (abs rn)) rn Hok); [reflexivity|].
+    unfold code_ok. reflexivity. }
+  cbn beta. intros h rn1 i1 (Hok1 & Hp1 & Ei1 & Ec1 & Hc1). rewrite app_nil_r in Ei1.
+  set (o := fold_left (reg_step ev) (seqn 0 (m_nreg mc)) (Out false false [] (abs rn))) in *.
+  (* the machine's own internal table *)
+  eapply sim_bind with (P := fun h2 rn2 i2 => okL mc rn2 /\ processing rn2 = processing rn /\
+      let o' := (if o_taken o then o
+                 else (let o2 := sp_rows pol mc 0 ev val (rev (filter (sp_matches (e_ty ev)) (m_irows mc))) (o_conf o) in
+                       Out (o_taken o2) (o_rejected o || o_rejected o2) (o_items o2 ++ o_items o) (o_conf o2))) in
+      i2 ++ i1 = o_items o' /\ abs rn2 = o_conf o' /\ code_ok h2 (o_taken o') (o_rejected o')).
+  { destruct (o_taken o) eqn:Tk.
+    - assert (Ei : internal_tried cf h = false).
+      { destruct internal_tried_vals as (_ & T1 & _ & T3). unfold code_ok in Hc1. destruct Hc1 as [->| ->]; auto. }
+      rewrite Ei, andb_false_r. apply sim_ret. rewrite app_nil_l. cbn zeta.
+      split; [exact Hok1|]. split; [exact Hp1|]. split; [exact Ei1|]. split; [exact Ec1|]. rewrite ?Tk. exact Hc1.
+    - assert (Ei : internal_tried cf h = true).
+      { destruct internal_tried_vals as (T0 & _ & T2 & _). unfold code_ok in Hc1. destruct (o_rejected o); subst h; auto. }
+      rewrite Ei, andb_true_r.
+      destruct (internal_processable mc (e_ty ev)) eqn:Ip.
+      + eapply sim_bind; [apply (sim_get val rn1 (fun a rn2 i2 => a = rn1 /\ rn2 = rn1 /\ i2 = [])); auto|].
+        cbn beta. intros a rn2 i2 (-> & -> & ->).
+        assert (Erows : internal_items cf parents mc (e_ty ev) = map CRow (rev (filter (sp_matches (e_ty ev)) (m_irows mc)))).
+        { unfold internal_items. f_equal. f_equal. eapply filter_ext_Forall; [apply core_irows_good|].
+          intros x (_ & Hx). apply row_matches_core; auto. }
+        rewrite Erows.
+        assert (Hgood : Forall core_row' (rev (filter (sp_matches (e_ty ev)) (m_irows mc)))).
+        { apply Forall_rev'. apply Forall_filter. eapply Forall_impl; [|apply core_irows_good]. intros x (H & _). exact H. }
+        set (irs := rev (filter (sp_matches (e_ty ev)) (m_irows mc))) in *.
+        eapply sim_bind with (P := fun ri rn3 i3 => okL mc rn3 /\ processing rn3 = processing rn1 /\
+            i3 = o_items (sp_rows pol mc 0 ev val irs (abs rn1)) /\ abs rn3 = o_conf (sp_rows pol mc 0 ev val irs (abs rn1)) /\
+            code_ok ri (o_taken (sp_rows pol mc 0 ev val irs (abs rn1))) (o_rejected (sp_rows pol mc 0 ev val irs (abs rn1)))).
+        { unfold run_cell. rewrite Hnofct.
+          pose proof (L_rows fuel 0 (nth 0 (act rn1) 0) ev irs rn1 Hok1 Hf1 Hgood) as HL.
+          destruct irs as [|x [|y t]] eqn:Ec; cbn [map].
+          - apply sim_ret. cbn. split; [exact Hok1|]. repeat (split; [reflexivity|]). reflexivity.
+          - inversion Hgood as [|? ? Hx _]; subst. cbn [exec_item].
+            eapply sim_conseq; [apply (L_row fuel 0 x ev rn1 Hok1 Hf1 Hx)|].
+            cbn beta. intros code rn' items (H1 & H2 & H3 & H4 & H5 & H6).
+            split; [exact H1|]. split; [exact H2|]. split; [exact H3|]. split; [exact H4|].
+            rewrite H6. subst code. unfold code_ok.
+            destruct (o_taken (sp_rows pol mc 0 ev val [x] (abs rn1))); [left; reflexivity | reflexivity].
+          - exact HL. }
+        cbn beta. intros ri rn3 i3 (Hok3 & Hp3 & Ei3 & Ec3 & Hc3). apply sim_ret. rewrite app_nil_l.
+        rewrite <- Ec1. cbn zeta. cbn [o_taken o_rejected o_items o_conf].
+        split; [exact Hok3|]. split; [congruence|]. split; [rewrite Ei3, Ei1, app_nil_r; reflexivity|]. split; [exact Ec3|].
+        try rewrite Tk in Hc1. replace (o_taken (sp_rows pol mc 0 ev val irs (abs rn1))) with (false || o_taken (sp_rows pol mc 0 ev val irs (abs rn1))) by reflexivity.
+        apply code_ok_or; assumption.
+      + cbn [andb]. apply sim_ret. rewrite app_nil_l.
+        rewrite (internal_processable_false (e_ty ev) Hev Ip). cbn [rev sp_rows o_taken o_rejected o_items o_conf].
+        rewrite orb_false_r, app_nil_l. cbn zeta.
+        split; [exact Hok1|]. split; [exact Hp1|]. split; [exact Ei1|]. split; [exact Ec1|]. rewrite ?Tk. exact Hc1. }
+  cbn beta. intros h2 rn2 i2 (Hok2 & Hp2 & Hres). cbn zeta in Hres. destruct Hres as (Ei2 & Ec2 & Hc2).
+  set (o' := if o_taken o then o else _) in *.
+  (* no_transition *)
+  eapply sim_bind with (P := fun _ rn3 i3 => rn3 = rn2 /\
+      i3 = if (negb contained || direct) && negb (o_taken o' || o_rejected o')
+           then rev (map (fun s => Cb KNoTrans [] s ev false (act rn2)) (act rn2)) else []).
+  { unfold nt_phase.
+    assert (Ez : Nat.eqb h2 0 = negb (o_taken o' || o_rejected o')).
+    { unfold code_ok in Hc2. destruct (o_taken o'); [destruct Hc2 as [->| ->]; reflexivity|]. destruct (o_rejected o'); subst h2; reflexivity. }
+    rewrite Ez. destruct (Nat.eqb (e_ty ev) EV_NONE) eqn:En; [apply Nat.eqb_eq in En; contradiction|]. cbn [negb]. rewrite andb_true_r.
+    destruct ((negb contained || direct) && negb (o_taken o' || o_rejected o')).
+    - eapply sim_bind; [apply (sim_get val rn2 (fun a rn3 i3 => a = rn2 /\ rn3 = rn2 /\ i3 = [])); auto|].
+      cbn beta. intros a rn3 i3 (-> & -> & ->).
+      eapply sim_conseq; [apply sim_iter_nt|]. cbn beta. intros u rn4 i4 (-> & ->). rewrite app_nil_r. auto.
+    - apply sim_ret. auto. }
+  cbn beta. intros u rn3 i3 (-> & ->). apply sim_ret. rewrite app_nil_l.
+  split; [exact Hok2|]. split; [exact Hp2|]. cbn zeta. fold o'.
+  rewrite <- Ec2, abs_act. split; [rewrite <- Ei2; rewrite app_assoc; reflexivity|]. split; [reflexivity | exact Hc2].
+Qed.
+
+
+(* ---- process_event_internal of one level ---- *)
+Lemma existsb_false_nth {A} (f:A -> bool) l d : (forall s, f (nth s l d) = false) -> existsb f l = false.
+Proof.
+  intros H. induction l as [|x l IH]; cbn [existsb]; [reflexivity|]. pose proof (H 0) as H0. cbn [nth] in H0. rewrite H0. cbn [orb]. apply IH. intros s. apply (H (S s)).
+Qed.
+Lemma existsb_false_Forall {A} (f:A -> bool) (P:A -> Prop) l : Forall P l -> (forall x, P x -> f x = false) -> existsb f l = false.
+Proof. intros H Hf. induction H as [|x l Hx Hl IH]; cbn; [reflexivity|]. rewrite (Hf x Hx). exact IH. Qed.
+
+Lemma core_no_blocking : has_blocking mc = false.
+Proof. unfold has_blocking. apply existsb_false_nth with (d := dummy_state). intros s. apply (core_state s). Qed.
+Lemma core_no_completion : has_completion_rows mc = false.
+Proof.
+  unfold has_completion_rows. eapply existsb_false_Forall; [apply core_rows_good|]. intros x (_ & (e & He & _)). rewrite He. reflexivity.
+Qed.
+Lemma good_no_defer x : good x -> match r_act x with ActDefer => true | _ => false end = false.
+Proof. intros ((Hd & _) & _). destruct (r_act x); congruence. Qed.
+Lemma core_no_deferring : has_deferring_states mc = false.
+Proof.
+  unfold has_deferring_states.
+  rewrite (existsb_false_nth _ (m_states mc) dummy_state).
+  2:{ intros s. destruct (core_state s) as (Hd & _). fold (get_state mc s). rewrite Hd. reflexivity. }
+  rewrite (existsb_false_Forall _ good (m_rows mc) core_rows_good good_no_defer).
+  rewrite (existsb_false_nth _ (m_states mc) dummy_state).
+  2:{ intros s. destruct (core_state s) as (_ & Hsi & _). fold (get_state mc s).
+      eapply existsb_false_Forall; [exact Hsi | exact good_no_defer]. }
+  rewrite (existsb_false_Forall _ good (m_irows mc) core_irows_good good_no_defer). reflexivity.
+Qed.
+
+Lemma sim_handle_deferred pei_rec f b rn : 1 <= f ->
+  sim val (handle_deferred mc pei_rec f b) rn (fun _ rn' items => rn' = rn /\ items = []).
+Proof.
+  intros Hf. destruct f as [|f]; [lia|]. cbn [handle_deferred]. rewrite core_no_deferring. cbn [negb]. apply sim_ret. auto.
+Qed.
+Lemma sim_drain_empty pei_rec f rn : msgq rn = [] ->
+  sim val (drain_msgq pei_rec f) rn (fun _ rn' items => rn' = rn /\ items = []).
+Proof.
+  intros Hq. destruct f as [|f]; cbn [drain_msgq].
+  - eapply sim_bind; [apply (sim_get val rn (fun a rn1 i1 => a = rn /\ rn1 = rn /\ i1 = [])); auto|].
+    cbn beta. intros a rn1 i1 (-> & -> & ->). rewrite Hq. apply sim_ret. auto.
+  - eapply sim_bind; [apply (sim_get val rn (fun a rn1 i1 => a = rn /\ rn1 = rn /\ i1 = [])); auto|].
+    cbn beta. intros a rn1 i1 (-> & -> & ->). rewrite Hq. apply sim_ret. auto.
+Qed.
+
+Lemma blocked_false rn ety : blocked mc rn ety = false.
+Proof. unfold blocked. rewrite core_no_blocking. reflexivity. Qed.
+
+Definition level_post (direct:bool) (ev:evt) (rn:rnode) (code:nat) (rn':rnode) (items:list titem) : Prop :=
+  ok mc rn' /\
+  (let o := sp_level pol mc ev val (abs rn) in
+   let nt := (negb contained || direct) && negb (o_taken o || o_rejected o) in
+   items = (if nt then rev (map (fun s => Cb KNoTrans [] s ev false (c_act (o_conf o))) (c_act (o_conf o))) else []) ++ o_items o /\
+   abs rn' = o_conf o /\ code_ok code (o_taken o) (o_rejected o)).
+
+Lemma L_pei fuel ev src rn : ok mc rn -> depth mc + 2 <= fuel -> e_ty ev <> EV_NONE ->
+  sim val (pei cf parents contained mc children fuel ev src) rn (level_post (has_bits src SRC_DIRECT) ev rn).
+Proof.
+  intros Hok Hfuel Hev. apply ok_unfold in Hok. destruct Hok as (HokL & Hproc).
+  destruct fuel as [|f]; [lia|]. cbn [pei]. unfold pei_body.
+  eapply sim_bind; [apply (sim_get val rn (fun a rn1 i1 => a = rn /\ rn1 = rn /\ i1 = [])); auto|].
+  cbn beta. intros a rn0 i0 (-> & -> & ->). rewrite blocked_false, Hproc.
+  eapply sim_bind; [apply (sim_modify val _ rn (fun _ rn1 i1 => rn1 = set_processing rn true /\ i1 = [])); auto|].
+  cbn beta. intros u1 rn1 i1 (-> & ->).
+  eapply sim_bind.
+  { apply sim_catch. apply (L_level f ev (has_bits src SRC_DIRECT) (set_processing rn true)); [apply okL_set_processing; exact HokL | lia | exact Hev]. }
+  cbn beta. intros code rn2 i2 (Hok2 & Hp2 & Hres). rewrite abs_set_processing in Hres.
+  eapply sim_bind; [apply (sim_modify val _ rn2 (fun _ rn3 i3 => rn3 = set_processing rn2 false /\ i3 = [])); auto|].
+  cbn beta. intros u3 rn3 i3 (-> & ->).
+  rewrite core_no_completion. cbn [andb].
+  eapply sim_bind; [apply (sim_ret val tt (set_processing rn2 false) (fun _ rn4 i4 => rn4 = set_processing rn2 false /\ i4 = [])); auto|].
+  cbn beta. intros u4 rn4 i4 (-> & ->).
+  assert (Hq : msgq (set_processing rn2 false) = []) by (destruct Hok2 as (Hq & _); destruct rn2; exact Hq).
+  assert (Hf : 1 <= f) by lia.
+  eapply sim_bind with (P := fun _ rn5 i5 => rn5 = set_processing rn2 false /\ i5 = []).
+  { destruct (c_qbefore cf).
+    - destruct (negb (has_bits src SRC_MSG_QUEUE)); [|apply sim_ret; auto].
+      eapply sim_bind; [apply sim_drain_empty; exact Hq|]. cbn beta. intros u5 rn5 i5 (-> & ->).
+      destruct (negb (has_bits src SRC_DEFERRED)); [|apply sim_ret; auto].
+      eapply sim_conseq; [apply sim_handle_deferred; exact Hf|]. cbn beta. intros u6 rn6 i6 (-> & ->). auto.
+    - destruct (negb (has_bits src SRC_DEFERRED)); [|apply sim_ret; auto].
+      eapply sim_bind; [apply sim_handle_deferred; exact Hf|]. cbn beta. intros u5 rn5 i5 (-> & ->).
+      destruct (negb (has_bits src SRC_MSG_QUEUE)); [|apply sim_ret; auto].
+      eapply sim_conseq; [apply sim_drain_empty; exact Hq|]. cbn beta. intros u6 rn6 i6 (-> & ->). auto. }
+  cbn beta. intros u5 rn5 i5 (-> & ->). apply sim_ret. rewrite !app_nil_l, !app_nil_r.
+  unfold level_post. split.
+  - apply ok_unfold. split; [apply okL_set_processing; exact Hok2 | destruct rn2; reflexivity].
+  - rewrite abs_set_processing. exact Hres.
+Qed.
+
+(* ---- leaving and entering the whole level (it is the submachine of an enclosing level) ---- *)
+Lemma L_exit_regions fuel ev : forall n r rn items0, okL mc rn ->
+  sim val (exit_regions contained mc children fuel ev n r) rn
+      (fun _ rn' items => okL mc rn' /\ processing rn' = processing rn /\
+         (items ++ items0, abs rn') =
+         fold_left (fun acc r => sp_exit_state (sp_exit_subs mc) ev (nth r (c_act (snd acc)) 0) acc) (seqn r n) (items0, abs rn)).
+Proof.
+  induction n as [|n IH]; intros r rn items0 Hok; cbn [exit_regions seqn fold_left].
+  - apply sim_ret. auto.
+  - eapply sim_bind; [apply (sim_get val rn (fun a rn1 i1 => a = rn /\ rn1 = rn /\ i1 = [])); auto|].
+    cbn beta. intros a rn0 i0 (-> & -> & ->).
+    eapply sim_bind; [apply (L_exit fuel (nth r (act rn) 0) ev rn Hok)|].
+    cbn beta. intros u rn1 i1 (Hok1 & Hp1 & E1).
+    eapply sim_conseq; [apply (IH (S r) rn1 (i1 ++ items0) Hok1)|].
+    cbn beta. intros u2 rn2 i2 (Hok2 & Hp2 & E2).
+    split; [exact Hok2|]. split; [congruence|]. rewrite app_nil_r, <- app_assoc, E2. f_equal.
+    cbn [snd]. rewrite abs_act.
+    rewrite (sp_exit_state_acc (sp_exit_subs mc) ev (nth r (act rn) 0) items0 (abs rn)). rewrite <- E1. reflexivity.
+Qed.
+
+
+Lemma L_start_regions fuel ev : 1 <= fuel -> forall n r rn items0, okL mc rn ->
+  sim val (start_regions cf contained mc children fuel ev n r) rn
+      (fun _ rn' items => okL mc rn' /\ processing rn' = processing rn /\
+         (items ++ items0, abs rn') =
+         fold_left (fun acc r => sp_enter_state (sp_enter_subs mc) ev (nth r (c_act (snd acc)) 0) acc) (seqn r n) (items0, abs rn)).
+Proof.
+  intros Hf. induction n as [|n IH]; intros r rn items0 Hok; cbn [start_regions seqn fold_left].
+  - apply sim_ret. auto.
+  - eapply sim_bind; [apply (sim_get val rn (fun a rn1 i1 => a = rn /\ rn1 = rn /\ i1 = [])); auto|].
+    cbn beta. intros a rn0 i0 (-> & -> & ->).
+    eapply sim_bind; [apply (L_entry fuel (nth r (act rn) 0) ev rn Hok Hf)|].
+    cbn beta. intros u rn1 i1 (Hok1 & Hp1 & E1).
+    eapply sim_conseq; [apply (IH (S r) rn1 (i1 ++ items0) Hok1)|].
+    cbn beta. intros u2 rn2 i2 (Hok2 & Hp2 & E2).
+    split; [exact Hok2|]. split; [congruence|]. rewrite app_nil_r, <- app_assoc, E2. f_equal.
+    cbn [snd]. rewrite abs_act.
+    rewrite (sp_enter_state_acc (sp_enter_subs mc) ev (nth r (act rn) 0) items0 (abs rn)). rewrite <- E1. reflexivity.
+Qed.
+
+Lemma sp_exit_unfold ev c :
+  sp_exit mc ev c = fold_left (fun acc r => sp_exit_state (sp_exit_subs mc) ev (nth r (c_act (snd acc)) 0) acc) (seqn 0 (m_nreg mc)) ([], c).
+Proof. destruct mc; reflexivity. Qed.
+Lemma sp_enter_unfold ev c :
+  sp_enter mc ev c = fold_left (fun acc r => sp_enter_state (sp_enter_subs mc) ev (nth r (c_act (snd acc)) 0) acc) (seqn 0 (m_nreg mc)) ([], c).
+Proof. destruct mc; reflexivity. Qed.
+
+(* nothing of this level or below has a transition for the event type: the specification does nothing *)
+Lemma good_unmatched ety x : good x -> trig_matches parents true (r_trig x) ety = false -> sp_matches ety x = false.
+Proof.
+  intros (_ & (e & He & Hne)). unfold sp_matches. rewrite He. cbn [trig_matches]. rewrite flat_base.
+  destruct (Nat.eqb e ety) eqn:E; [|reflexivity]. apply Nat.eqb_eq in E. subst ety.
+  destruct (Nat.eqb e EV_NONE) eqn:E2; [apply Nat.eqb_eq in E2; contradiction|]. cbn. discriminate.
+Qed.
+Lemma existsb_forall {A} (f:A -> bool) l : existsb f l = false <-> (forall x, In x l -> f x = false).
+Proof.
+  induction l as [|a l IH]; cbn; [split; [intros _ x [] | reflexivity]|].
+  rewrite orb_false_iff, IH. split.
+  - intros (Ha & Hl) x [->|Hx]; auto.
+  - intros H. split; [apply H; left; reflexivity | intros x Hx; apply H; right; exact Hx].
+Qed.
+Lemma filter_nil_Forall {A} (f:A -> bool) l : (forall x, In x l -> f x = false) -> filter f l = [].
+Proof. intros H. induction l as [|x l IH]; cbn; [reflexivity|]. rewrite (H x) by (left; reflexivity). apply IH. intros y Hy. apply H. right. exact Hy. Qed.
+
+Lemma L_silent ev c :
+  existsb (fun t => trig_matches parents true t (e_ty ev)) (level_trigs cf mc children) = false ->
+  sp_level pol mc ev val c = Out false false [] c.
+Proof.
+  intros Hs. unfold level_trigs in Hs. rewrite is11_false in Hs. rewrite !existsb_app in Hs.
+  apply orb_false_iff in Hs. destruct Hs as (Hrows & Hs). apply orb_false_iff in Hs. destruct Hs as (Hrest & Hkids).
+  apply orb_false_iff in Hrest. destruct Hrest as (Hirows & Hsirows).
+  assert (Hun : forall l, Forall good l -> existsb (fun t => trig_matches parents true t (e_ty ev)) (map r_trig l) = false ->
+                          filter (sp_matches (e_ty ev)) l = []).
+  { intros l Hg He. apply filter_nil_Forall. intros x Hx. eapply Forall_forall in Hg; eauto. apply good_unmatched; [exact Hg|].
+    rewrite existsb_forall in He. apply He. apply in_map. exact Hx. }
+  assert (Hcand : forall s, sp_candidates mc s (e_ty ev) = []).
+  { intros s. unfold sp_candidates.
+    assert (E1 : filter (fun x => Nat.eqb (r_src x) s && sp_matches (e_ty ev) x) (m_rows mc) = []).
+    { apply filter_nil_Forall. intros x Hx. pose proof core_rows_good as Hg. eapply Forall_forall in Hg; eauto.
+      rewrite (good_unmatched _ x Hg); [apply andb_false_r|].
+      rewrite existsb_forall in Hrows. apply Hrows. apply in_map. exact Hx. }
+    rewrite E1. cbn [rev]. rewrite app_nil_r. destruct (is_sub mc s); [reflexivity|].
+    destruct (core_state s) as (_ & Hsi & _). rewrite (Hun _ Hsi); [reflexivity|].
+    rewrite existsb_forall in Hsirows |- *. intros t Ht. apply Hsirows. apply in_flat_map.
+    destruct (Nat.lt_ge_cases s (length (m_states mc))) as [L|G].
+    - exists (get_state mc s). split; [apply nth_In; exact L | exact Ht].
+    - unfold get_state in Ht. rewrite nth_overflow in Ht by exact G. cbn in Ht. contradiction. }
+  assert (Hreg : forall r c0, sp_region pol mc (sp_level_subs pol mc) ev val r c0 = Out false false [] c0).
+  { intros r c0. unfold sp_region. rewrite Hcand. rewrite level_subs_nth.
+    destruct (s_sub (get_state mc (nth r (c_act c0) 0))) as [m|] eqn:Es; [|reflexivity].
+    destruct (nth (nth r (c_act c0) 0) (c_kids c0) None) as [k|] eqn:Ek; [|reflexivity].
+    destruct (child_some _ m Es) as (co & Hco & Hsp).
+    rewrite (cs_silent m co Hsp ev k).
+    - cbn [o_taken o_rejected o_items o_conf sp_rows map app orb]. rewrite c_set_kid_same by exact Ek. reflexivity.
+    - rewrite existsb_forall in Hkids |- *. intros t Ht. apply Hkids. apply in_flat_map.
+      exists (Some co). split; [|exact Ht]. unfold child in Hco. rewrite <- Hco. apply nth_In.
+      destruct (Nat.lt_ge_cases (nth r (c_act c0) 0) (length children)) as [L|G]; [exact L|].
+      rewrite nth_overflow in Hco by exact G. discriminate. }
+  rewrite sp_level_unfold, sp_regions_fold.
+  assert (Hfold : forall l o, o = Out false false [] (o_conf o) -> fold_left (reg_step ev) l o = o).
+  { induction l as [|r l IH]; intros o Ho; cbn [fold_left]; [reflexivity|].
+    assert (E : reg_step ev o r = o).
+    { unfold reg_step. rewrite Hreg. rewrite Ho. cbn. reflexivity. }
+    rewrite E. apply IH. exact Ho. }
+  rewrite Hfold by reflexivity. cbn [o_taken o_rejected o_items o_conf].
+  rewrite (Hun _ core_irows_good Hirows). reflexivity.
+Qed.
+
 End BackSpec.
+
+(* ============================ every level of every core definition ============================ *)
+Section BackWhole.
+Variable cf : cfg.
+Hypothesis Hbe : c_be cf = Back.
+Hypothesis Hnofct : c_fct cf = false.
+Variable parents : list (option nat).
+Hypothesis Hflat : forall e, nth e parents None = None.
+Variable val : list nat.
+Notation pol := (c_pol cf).
+
+Definition kidsops (mc:machine) : list (option child_ops) :=
+  map (fun st => match s_sub st with Some c => Some (build cf parents true c) | None => None end) (m_states mc).
+Lemma build_back mc contained : build cf parents contained mc = back_ops cf parents contained mc (kidsops mc).
+Proof. destruct mc. unfold build; fold build. rewrite Hbe. reflexivity. Qed.
+
+Lemma core_sub mc s c : core mc -> s_sub (get_state mc s) = Some c -> core c.
+Proof.
+  intros Hc Hs. unfold get_state in Hs. destruct mc as [states inits rows irows hist]. cbn in Hc. destruct Hc as (_ & _ & Hall).
+  cbn [m_states] in Hs. pose proof (core_states_facts states s Hall) as (_ & _ & _ & H). rewrite Hs in H. exact H.
+Qed.
+
+Lemma hist_entry_abs mc rn ety : history_entry mc rn ety = sp_hist_entry mc (abs rn) ety.
+Proof. unfold history_entry, sp_hist_entry. rewrite abs_hist. reflexivity. Qed.
+
+Theorem back_cspec : forall mc, core mc -> cspec cf parents val mc (build cf parents true mc).
+Proof.
+  intros mc. induction mc as [mc IH] using machine_sub_ind. intros Hcore.
+  assert (Hch : forall s, match s_sub (get_state mc s) with
+                          | Some c => exists co, nth s (kidsops mc) None = Some co /\ cspec cf parents val c co
+                          | None => nth s (kidsops mc) None = None
+                          end).
+  { intros s. unfold kidsops. rewrite nth_map_sub. fold (get_state mc s).
+    destruct (s_sub (get_state mc s)) as [c|] eqn:Es; [|reflexivity].
+    exists (build cf parents true c). split; [reflexivity|]. apply (IH s c Es). eapply core_sub; eauto. }
+  rewrite build_back. constructor; cbn [back_ops co_exit_pre co_exit_post co_entry_pre co_entry_post co_pei co_trigs].
+  - (* leaving *)
+    intros fuel ev kn Hok. apply ok_unfold in Hok. destruct Hok as (HokL & Hp). unfold do_exit_pre.
+    eapply sim_conseq; [eapply L_exit_regions with (items0 := []); eauto|].
+    cbn beta. intros u kn' items (H1 & H2 & H3). split.
+    + apply ok_unfold. split; [exact H1 | congruence].
+    + rewrite app_nil_r in H3. rewrite H3. symmetry. eapply sp_exit_unfold; eauto.
+  - intros ev kn Hok. apply ok_unfold in Hok. destruct Hok as (HokL & Hp). unfold do_exit_post.
+    eapply sim_bind; [apply (sim_modify val _ kn (fun _ rn1 i1 => rn1 = (match m_hist mc with HNone => kn | _ => set_hist kn (act kn) end) /\ i1 = [])); auto|].
+    cbn beta. intros u rn1 i1 (-> & ->).
+    assert (Ha : abs (match m_hist mc with HNone => kn | _ => set_hist kn (act kn) end) = sp_post_exit mc (abs kn)).
+    { unfold sp_post_exit. destruct (m_hist mc); [reflexivity | |]; rewrite abs_set_hist, abs_act; reflexivity. }
+    assert (Ho : okL mc (match m_hist mc with HNone => kn | _ => set_hist kn (act kn) end) /\
+                 processing (match m_hist mc with HNone => kn | _ => set_hist kn (act kn) end) = false).
+    { destruct (m_hist mc); (split; [try apply okL_set_hist; exact HokL | destruct kn; exact Hp]). }
+    destruct Ho as (Ho1 & Ho2).
+    destruct (keeps_deferred mc (e_ty ev)).
+    + apply sim_ret. split; [apply ok_unfold; auto|]. auto.
+    + apply sim_modify. split; [|split; [reflexivity | rewrite abs_set_defq; exact Ha]].
+      apply ok_unfold. split; [apply okL_set_defq_nil; exact Ho1|].
+      destruct (match m_hist mc with HNone => kn | _ => set_hist kn (act kn) end); exact Ho2.
+  - (* entering: the regions are placed *)
+    intros ev kn Hok. apply ok_unfold in Hok. destruct Hok as (HokL & Hp). unfold do_entry_pre.
+    eapply sim_bind; [apply (sim_modify val _ kn (fun _ rn1 i1 => rn1 = set_act kn (history_entry mc kn (e_ty ev)) /\ i1 = [])); auto|].
+    cbn beta. intros u rn1 i1 (-> & ->).
+    apply sim_modify. split; [apply okL_set_processing; apply okL_set_act; exact HokL|]. split; [reflexivity|].
+    rewrite abs_set_processing, abs_set_act, hist_entry_abs. reflexivity.
+  - (* entering: the states of the regions *)
+    intros fuel ev kn HokL Hf. unfold do_entry_post, internal_start.
+    erewrite core_no_completion by eauto.
+    eapply sim_bind with (P := fun _ rn1 i1 => okL mc rn1 /\ processing rn1 = processing kn /\
+        (i1, abs rn1) = fold_left (fun acc r => sp_enter_state (sp_enter_subs mc) ev (nth r (c_act (snd acc)) 0) acc)
+                                  (seqn 0 (m_nreg mc)) ([], abs kn)).
+    { eapply sim_bind; [eapply L_start_regions with (items0 := []); eauto|].
+      cbn beta. intros u rn1 i1 (H1 & H2 & H3). apply sim_ret. rewrite app_nil_l. rewrite app_nil_r in H3. auto. }
+    cbn beta. intros u rn1 i1 (Hok1 & Hp1 & E1).
+    eapply sim_bind; [apply (sim_modify val _ rn1 (fun _ rn2 i2 => rn2 = set_processing rn1 false /\ i2 = [])); auto|].
+    cbn beta. intros u2 rn2 i2 (-> & ->).
+    eapply sim_bind; [eapply sim_handle_deferred; eauto|].
+    cbn beta. intros u3 rn3 i3 (-> & ->).
+    assert (Hq : msgq (set_processing rn1 false) = []) by (destruct Hok1 as (Hq & _); destruct rn1; exact Hq).
+    eapply sim_conseq; [apply sim_drain_empty; exact Hq|].
+    cbn beta. intros u4 rn4 i4 (-> & ->). rewrite !app_nil_l. split.
+    + apply ok_unfold. split; [apply okL_set_processing; exact Hok1 | destruct rn1; reflexivity].
+    + rewrite abs_set_processing. rewrite E1. symmetry. eapply sp_enter_unfold; eauto.
+  - (* an event *)
+    intros fuel ev kn Hok Hfuel Hev.
+    eapply sim_conseq; [eapply L_pei; eauto|].
+    unfold level_post. cbn beta. intros code kn' items (H1 & H2). split; [exact H1|]. cbn zeta in H2. cbn in H2.
+    destruct H2 as (H2 & H3 & H4). auto.
+  - intros ev k Hs. eapply L_silent; eauto.
+Qed.
+
+
+(* ---- the outermost machine ---- *)
+Lemma kids_hch mc : core mc ->
+  forall s, match s_sub (get_state mc s) with
+            | Some c => exists co, nth s (kidsops mc) None = Some co /\ cspec cf parents val c co
+            | None => nth s (kidsops mc) None = None
+            end.
+Proof.
+  intros Hcore s. unfold kidsops. rewrite nth_map_sub. fold (get_state mc s).
+  destruct (s_sub (get_state mc s)) as [c|] eqn:Es; [|reflexivity].
+  exists (build cf parents true c). split; [reflexivity|]. apply back_cspec. eapply core_sub; eauto.
+Qed.
+
+(* process_event on the outermost machine is sp_process *)
+Theorem back_process_event : forall mc, core mc -> forall fuel ev rn,
+  ok mc rn -> depth mc + 2 <= fuel -> e_ty ev <> EV_NONE ->
+  sim val (co_pei (build cf parents false mc) fuel ev SRC_DIRECT) rn
+      (fun code rn' items => ok mc rn' /\
+         items = o_items (sp_process pol mc ev val (abs rn)) /\ abs rn' = o_conf (sp_process pol mc ev val (abs rn)) /\
+         code_ok code (o_taken (sp_process pol mc ev val (abs rn))) (o_rejected (sp_process pol mc ev val (abs rn)))).
+Proof.
+  intros mc Hcore fuel ev rn Hok Hfuel Hev. pose proof (kids_hch mc Hcore) as Hch. rewrite build_back. cbn [back_ops co_pei].
+  eapply sim_conseq; [eapply L_pei; eauto|].
+  unfold level_post. cbn beta. intros code rn' items (H1 & H2). split; [exact H1|]. cbn zeta in H2. destruct H2 as (H2 & H3 & H4).
+  unfold sp_process. change (has_bits SRC_DIRECT SRC_DIRECT) with true in H2. cbn [negb orb andb] in H2.
+  destruct (o_taken (sp_level pol mc ev val (abs rn)) || o_rejected (sp_level pol mc ev val (abs rn))) eqn:E.
+  - cbn [negb] in H2. rewrite app_nil_l in H2. auto.
+  - cbn [negb] in H2. cbn [o_items o_conf o_taken o_rejected]. apply orb_false_iff in E. destruct E as (E1 & E2).
+    rewrite E1, E2 in H4. auto.
+Qed.
+
+Hypothesis Hstartq : back_start_queues = true.
+
+Theorem back_start : forall mc, core mc -> forall fuel rn, ok mc rn -> 1 <= fuel ->
+  sim val (co_start (build cf parents false mc) fuel) rn
+      (fun _ rn' items => ok mc rn' /\ (items, abs rn') = sp_start mc (abs rn)).
+Proof.
+  intros mc Hcore fuel rn Hok Hf. pose proof (kids_hch mc Hcore) as Hch. apply ok_unfold in Hok. destruct Hok as (HokL & Hp).
+  rewrite build_back. cbn [back_ops co_start]. unfold do_start, start_queues. rewrite (is11_false cf Hbe), Hstartq.
+  erewrite core_no_completion by eauto.
+  eapply sim_bind; [apply (sim_modify val _ rn (fun _ rn1 i1 => rn1 = set_act rn (m_inits mc) /\ i1 = [])); auto|].
+  cbn beta. intros u1 rn1 i1 (-> & ->).
+  eapply sim_bind; [apply (sim_modify val _ _ (fun _ rn2 i2 => rn2 = set_processing (set_act rn (m_inits mc)) true /\ i2 = [])); auto|].
+  cbn beta. intros u2 rn2 i2 (-> & ->).
+  set (rn0 := set_processing (set_act rn (m_inits mc)) true).
+  assert (Hok0 : okL mc rn0) by (apply okL_set_processing, okL_set_act; exact HokL).
+  eapply sim_bind with (P := fun _ rn3 i3 => okL mc rn3 /\ processing rn3 = true /\
+      (i3, abs rn3) = (let '(items, c1) := sp_enter mc (Evt EV_INIT 0) (abs rn0) in
+                       (items ++ [Cb KMEntry [] 0 (Evt EV_INIT 0) false (m_inits mc)], c1))).
+  { apply sim_on_throw.
+    eapply sim_bind; [eapply sim_cb|]. cbn beta. intros u3 rn3 i3 (-> & ->).
+    eapply sim_conseq; [eapply L_start_regions with (items0 := []); eauto|].
+    cbn beta. intros u4 rn4 i4 (H1 & H2 & H3). split; [exact H1|]. split; [rewrite H2; unfold rn0; destruct rn; reflexivity|].
+    rewrite app_nil_r in H3. erewrite sp_enter_unfold by eauto. rewrite <- H3.
+    f_equal. f_equal. unfold rn0. destruct rn; reflexivity. }
+  cbn beta. intros u3 rn3 i3 (Hok3 & Hp3 & E3).
+  eapply sim_bind; [apply (sim_modify val _ rn3 (fun _ rn4 i4 => rn4 = set_processing rn3 false /\ i4 = [])); auto|].
+  cbn beta. intros u4 rn4 i4 (-> & ->).
+  eapply sim_bind; [apply (sim_ret val tt (set_processing rn3 false) (fun _ rn5 i5 => rn5 = set_processing rn3 false /\ i5 = [])); auto|].
+  cbn beta. intros u5 rn5 i5 (-> & ->).
+  assert (Hq : msgq (set_processing rn3 false) = []) by (destruct Hok3 as (Hq & _); destruct rn3; exact Hq).
+  eapply sim_conseq; [apply sim_drain_empty; exact Hq|].
+  cbn beta. intros u6 rn6 i6 (-> & ->). rewrite !app_nil_l, !app_nil_r. split.
+  - apply ok_unfold. split; [apply okL_set_processing; exact Hok3 | destruct rn3; reflexivity].
+  - rewrite abs_set_processing. rewrite E3. unfold sp_start, rn0. rewrite abs_set_processing, abs_set_act. reflexivity.
+Qed.
+
+Theorem back_stop : forall mc, core mc -> forall fuel rn, ok mc rn ->
+  sim val (co_stop (build cf parents false mc) fuel) rn
+      (fun _ rn' items => ok mc rn' /\ (items, abs rn') = sp_stop mc (abs rn)).
+Proof.
+  intros mc Hcore fuel rn Hok. pose proof (kids_hch mc Hcore) as Hch. pose proof (back_cspec mc Hcore) as Hsp.
+  apply ok_unfold in Hok. destruct Hok as (HokL & Hp).
+  rewrite build_back. cbn [back_ops co_stop]. unfold do_stop, do_exit_pre.
+  eapply sim_bind; [eapply L_exit_regions with (items0 := []); eauto|].
+  cbn beta. intros u1 rn1 i1 (Hok1 & Hp1 & E1). rewrite app_nil_r in E1.
+  eapply sim_bind; [eapply sim_cb|]. cbn beta. intros u2 rn2 i2 (-> & ->).
+  (* the bookkeeping is the same function whether the machine is contained or not *)
+  assert (Hpost : sim val (do_exit_post mc (Evt EV_EXIT 0)) rn1
+            (fun _ rn' items => ok mc rn' /\ items = [] /\ abs rn' = sp_post_exit mc (abs rn1))).
+  { pose proof (cs_exit_post cf parents val mc _ Hsp (Evt EV_EXIT 0) rn1) as H.
+    rewrite build_back in H. cbn [back_ops co_exit_post] in H. apply H.
+    apply ok_unfold. split; [exact Hok1 | congruence]. }
+  eapply sim_conseq; [exact Hpost|]. cbn beta. intros u3 rn3 i3 (Hok3 & -> & E3).
+  split; [exact Hok3|]. unfold sp_stop. erewrite sp_exit_unfold by eauto. rewrite <- E1.
+  rewrite app_nil_l. cbn [app]. rewrite abs_act, E3. reflexivity.
+Qed.
+
+End BackWhole.
